@@ -230,12 +230,14 @@ class CombinatorialSpecification(
             debug=False,
             expand_verified=continue_expanding_verified,
         )
+        # the queue is replaced BEFORE the rules are seeded: seeding marks the empty
+        # children of the seeded rules as "stop yielding" in the current queue
+        css.classqueue = DefaultQueue(css.strategy_pack)
         for rule in spec_rules:
             start_label = css.classdb.get_label(rule.comb_class)
             end_labels = tuple(map(css.classdb.get_label, rule.children))
             ruledb.add(start_label, end_labels, rule)
         ruledb.reverse = reverse
-        css.classqueue = DefaultQueue(css.strategy_pack)
         label_to_expand = css.classdb.get_label(comb_class)
         css.classqueue.add(label_to_expand)
         css.try_verify(comb_class, label_to_expand)
